@@ -134,7 +134,7 @@ struct Dest {
    std::tuple<int, int, int> tp{0, 0, 0};
    std::vector<std::string> vs; std::tuple<std::string, std::string, std::string> ts;
    std::deque<int> dq; std::list<int> li; std::forward_list<int> fl; std::stack<int> sk; std::queue<int> qu; std::priority_queue<int> pq; std::multiset<int> ms; std::unordered_set<int> us;
-   double dbl = 0.25, ratio = 0.25, quota = 0.25; float flt = 0.5f;
+   double dbl = 0.25, ratio = 0.25, quota = 0.25, weight = 0.25; float flt = 0.5f;
    int n0, m0, l0, u0, d10, d20;
    Dest() : f(false), g(false), x(false), y(false), r(false), a(false), b(false), p(false), q(false) {
       n0 = n = (int) vs_u32("init"); m0 = m = (int) vs_u32("init"); l0 = l = (int) vs_u32("init"); u0 = u = (int) vs_u32("init");
@@ -173,6 +173,17 @@ void setup(Handler& ah, Dest& d, int cfg, int part /* 0 = all, 1/2 = halves for 
       if (in(1)) { ah.addArgument("i,input", DEST_VAR(d.n), "input"); ah.addArgument("o,output", DEST_VAR(d.m), "output"); ah.addConstraint(one_of("input;output")); }
       if (in(2)) { ah.addArgument("p,print", DEST_VAR(d.p), "print"); ah.addArgument("q,quiet", DEST_VAR(d.q), "quiet"); ah.addConstraint(any_of("p;quiet"));
                    ah.addArgument("a,alpha", DEST_VAR(d.a), "alpha"); ah.addArgument("b,beta", DEST_VAR(d.b), "beta"); ah.addConstraint(all_of("alpha;b")); }
+   } else if (cfg == 19) {
+      // cfg 8 with the constraint lists written with dashes / in the normalised "-s,--long" form
+      if (in(1)) { ah.addArgument("i,input", DEST_VAR(d.n), "input"); ah.addArgument("o,output", DEST_VAR(d.m), "output"); ah.addConstraint(one_of("-i,--input;--output")); }
+      if (in(2)) { ah.addArgument("p,print", DEST_VAR(d.p), "print"); ah.addArgument("q,quiet", DEST_VAR(d.q), "quiet"); ah.addConstraint(any_of("-p;--quiet"));
+                   ah.addArgument("a,alpha", DEST_VAR(d.a), "alpha"); ah.addArgument("b,beta", DEST_VAR(d.b), "beta"); ah.addConstraint(all_of("-a,--alpha;-b")); }
+   } else if (cfg == 20) {
+      // constraints over short-only keys written with their dash
+      ah.addArgument("a", DEST_VAR(d.a), "a"); ah.addArgument("b", DEST_VAR(d.b), "b"); ah.addConstraint(all_of("-a;-b"));
+      ah.addArgument("p", DEST_VAR(d.p), "p"); ah.addArgument("q", DEST_VAR(d.q), "q"); ah.addConstraint(any_of("-p;-q"));
+      ah.addArgument("x", DEST_VAR(d.x), "x"); ah.addArgument("y", DEST_VAR(d.y), "y"); ah.addConstraint(one_of("-x;-y"));
+      ah.addArgument("r", DEST_VAR(d.r), "r")->addConstraint(requiresArg("-a")); ah.addArgument("g", DEST_VAR(d.g), "g")->addConstraint(excludes("-p"));
    } else if (cfg == 9) {
       // the same argument required by one argument and excluded by another
       if (in(1)) { ah.addArgument("a", DEST_VAR(d.a), "a")->addConstraint(requiresArg("c")); ah.addArgument("b", DEST_VAR(d.b), "b")->addConstraint(excludes("c"));
@@ -188,6 +199,8 @@ void setup(Handler& ah, Dest& d, int cfg, int part /* 0 = all, 1/2 = halves for 
       if (pa_opt & 1) k->setClearBeforeAssign();
       if (pa_opt & 4) k->setUniqueData(false);
       if (pa_opt & 8) k->setUniqueData(true);
+      if (pa_opt & 256) k->setPairFormat("=||");          // pair "|key=value|"
+      if (pa_opt & 512) k->setPairFormat(":{}");          // pair "{key:value}"
       ah.addArgument("t,tuple", DEST_VAR(d.tp), "tuple of three ints");
       ah.addArgument("f,flag", DEST_VAR(d.f), "flag");
    } else if (cfg == 14) {
@@ -215,6 +228,7 @@ void setup(Handler& ah, Dest& d, int cfg, int part /* 0 = all, 1/2 = halves for 
       // floating point destinations
       ah.addArgument("d,double", DEST_VAR(d.dbl), "double"); ah.addArgument("x,float", DEST_VAR(d.flt), "float"); ah.addArgument("f,flag", DEST_VAR(d.f), "flag"); ah.addArgument("n,number", DEST_VAR(d.n), "number");
       ah.addArgument("r,ratio", DEST_VAR(d.ratio), "checked double")->addCheck(range(0.5, 2.5)); ah.addArgument("q,quota", DEST_VAR(d.quota), "checked double")->addCheck(lower(1.5))->addCheck(upper(7.5));
+      ah.addArgument("w,weight", DEST_VAR(d.weight), "double with integer limits")->addCheck(range(1, 10));
    } else if (cfg == 16) {
       // pattern check (std::regex, header code of libstdc++ in the IR)
       ah.addArgument("w,word", DEST_VAR(d.w), "word")->addCheck(pattern("^[a-c]+[0-9]$")); ah.addArgument("k,key", DEST_VAR(d.k), "key")->addCheck(pattern("x.?y"));
@@ -260,10 +274,15 @@ void setup(Handler& ah, Dest& d, int cfg, int part /* 0 = all, 1/2 = halves for 
       }
       if (part == 1) return;
    cfg6_second:
-      ah.addArgument("t,set", DEST_VAR(d.st), "set");
-      ah.addArgument("a,arr", DEST_VAR(d.arr), "array");
-      ah.addArgument("y,stdarr", DEST_VAR(d.sa), "std::array");
-      ah.addArgument("b,bits", DEST_VAR(d.bs), "bitset"); ah.addArgument("B,bigbits", DEST_VAR(d.bigbs), "bitset of several words");
+      {
+      celma::prog_args::detail::TypedArgBase* cs[3] = { ah.addArgument("t,set", DEST_VAR(d.st), "set"), ah.addArgument("a,arr", DEST_VAR(d.arr), "array"), ah.addArgument("y,stdarr", DEST_VAR(d.sa), "std::array") };
+      if (pa_opt & 1024) for (auto* a : cs) a->addCheck(range(10, 100));        // every element is checked
+      }
+      {
+      auto* b = ah.addArgument("b,bits", DEST_VAR(d.bs), "bitset");
+      if (pa_opt & 2048) { d.bs.set(); b->unsetFlag(); }                           // all bits set before, the argument clears the positions
+      if (pa_opt & 4096) b->addFormat(lowercase());                               // a (here: neutral) value formatter
+      } ah.addArgument("B,bigbits", DEST_VAR(d.bigbs), "bitset of several words");
       d.vb.resize((pa_opt >> 7) & 3);          // a destination that already has 0..3 (cleared) positions
       ah.addArgument("z,vbool", DEST_VAR(d.vb), "vector<bool>");
       ah.addArgument("f,flag", DEST_VAR(d.f), "flag");
@@ -390,9 +409,15 @@ void check_dests(const Tmpl& t, const Dest& d) {
       else if (k == "ls") check_strs(t, e, std::vector<std::string>{d.s}, "destination s (string, formatted)");
       else if (k == "dbl") check_fp(t, e, d.dbl, 0.25, false, "destination dbl (double)");
       else if (k == "ratio") check_fp(t, e, d.ratio, 0.25, false, "destination ratio (double, range-checked)");
+      else if (k == "weight") check_fp(t, e, d.weight, 0.25, false, "destination weight (double, integer range limits)");
       else if (k == "quota") check_fp(t, e, d.quota, 0.25, false, "destination quota (double, lower/upper-checked)");
       else if (k == "flt") check_fp(t, e, (double) d.flt, 0.5, true, "destination flt (float)");
       else if (k == "bigbs") { size_t want = 0; for (auto& part : split(e, ',')) { long pos = part[0] == '#' ? slot_int(t.slots[part[1] - '0']) : to_long(part); vs_assert(pos >= 0 && pos < 200 && d.bigbs.test((size_t) pos), "destination bigbs (bitset<200>) has the position set"); ++want; } vs_assert(d.bigbs.count() <= want, "destination bigbs (bitset<200>) has no other position set"); }
+      else if (k == "bsc" || k == "bss") {      // bitset<8>: exactly the listed positions are cleared (bsc) / set (bss), all others the opposite
+         bool listed[8] = {false, false, false, false, false, false, false, false};
+         if (e != "_") for (auto& part : split(e, ',')) { long pos = part[0] == '#' ? slot_int(t.slots[part[1] - '0']) : to_long(part); for (long i = 0; i < 8; ++i) if (i == pos) listed[i] = true; }
+         for (size_t i = 0; i < 8; ++i) vs_assert(d.bs.test(i) == (k == "bss" ? listed[i] : !listed[i]), "destination bs (bitset): exactly the given positions are set / cleared");
+      }
       else if (k == "bs") check_int(t, e, (int) d.bs.to_ulong(), 0, "destination bs (bitset)");
    }
 }
@@ -417,6 +442,22 @@ HX void hx_pa(uint64_t cfg, uint64_t flags) {
    setup(ah, d, (int) cfg, 0);
    Argv av(t.words);
    int rc = guarded([&] { ah.evalArguments(av.argc(), av.argv()); });
+   judge(t, rc, d);
+}
+// the same Handler object evaluates two command lines one after the other (words before "\x04" = first line).  The expectation
+// is judged after the second evaluation; mode bit 0: the first evaluation is expected to fail (and its failure is ignored)
+HX void hx_pa_twice(uint64_t cfg, uint64_t flags) {
+   Tmpl t; parse(t);
+   Dest d;
+   pa_opt = (unsigned) (flags >> 8);
+   Handler ah(0);
+   setup(ah, d, (int) cfg, 0);
+   std::vector<std::string> first, second; bool in_first = true;
+   for (auto& w : t.words) { if (w == "\x04") { in_first = false; continue; } (in_first ? first : second).push_back(w); }
+   Argv av1(first), av2(second);
+   int rc1 = guarded([&] { ah.evalArguments(av1.argc(), av1.argv()); });
+   vs_assert(rc1 != 2 && (rc1 == 1) == ((flags & 1) != 0), "first evaluation: accepted / refused as expected");
+   int rc = guarded([&] { ah.evalArguments(av2.argc(), av2.argv()); });
    judge(t, rc, d);
 }
 // C07: the same words delivered through a command line *string* (evalArgumentString)
@@ -743,6 +784,17 @@ HX void hx_pa_argfile(uint64_t cfg, uint64_t mode) {
    if (mode & 1) { std::vector<std::string> c2(cmd.begin() + 2, cmd.end()); c2.push_back("--arg-file"); c2.push_back("/tmp/vs_home/args.txt"); cmd = c2; }     // the file is named last
    vs_file("/tmp/vs_home/args.txt", content.data(), content.size());
    Argv av(cmd);
+   int rc = guarded([&] { ah.evalArguments(av.argc(), av.argv()); });
+   judge(t, rc, d);
+}
+
+// C04/C18: help for a single argument (--help-arg / --help-arg-full) with an arbitrary key text, known and unknown keys
+HX void hx_pa_help(uint64_t full, uint64_t) {
+   Tmpl t; parse(t);
+   Dest d;
+   Handler ah(*sink(), *sink(), Handler::hfHelpArg | Handler::hfHelpArgFull | Handler::hfUsageCont);
+   setup(ah, d, 0, 0);
+   Argv av(t.words);
    int rc = guarded([&] { ah.evalArguments(av.argc(), av.argv()); });
    judge(t, rc, d);
 }
